@@ -274,6 +274,19 @@ def _retarget(t, old, new):
         t["targets"] = [[v, (new if b == old else b)] for v, b in t["targets"]]
 
 
+def _payload_path(proj):
+    """[(downcast V, field i)]* -> ((V, i), ..); None for any other projection"""
+    out = []
+    i = 0
+    while i < len(proj):
+        if i + 1 < len(proj) and proj[i]["k"] == "downcast" and proj[i + 1]["k"] == "field" and isinstance(proj[i + 1].get("i"), int):
+            out.append((proj[i]["variant"], proj[i + 1]["i"]))
+            i += 2
+        else:
+            return None
+    return tuple(out)
+
+
 def thread_known_variants(body, only_from=None, budget=60, bools=False):
     """bools=True also threads unnamed bool temporaries whose constant value is known along an
     incoming chain (the `matches!(..)` result of an inlined closure)."""
@@ -282,15 +295,20 @@ def thread_known_variants(body, only_from=None, budget=60, bools=False):
     def preds_of(i):
         return [b["i"] for b in blocks if not b["cleanup"] and i in _succ(b["term"])]
 
+    nested = [()]
+
     def discr_of_switch(b):
-        """(local tested, is_try) if block b switches on discriminant(local) computed in b."""
+        """local tested if block b switches on discriminant(local) computed in b; nested[0] is
+        then the payload path below it (`discriminant((x as Err).0)` -> (("Err", 0),))."""
+        nested[0] = ()
         t = b["term"]
         if t["k"] != "switch" or t["discr"]["k"] not in ("copy", "move") or t["discr"]["place"]["proj"]:
             return None
         d = t["discr"]["place"]["local"]
         for s in reversed(b["stmts"]):
             if s["k"] == "assign" and s["place"]["local"] == d and not s["place"]["proj"]:
-                if s["rv"]["k"] == "discriminant" and not s["rv"]["place"]["proj"]:
+                if s["rv"]["k"] == "discriminant" and _payload_path(s["rv"]["place"]["proj"]) is not None:
+                    nested[0] = _payload_path(s["rv"]["place"]["proj"])
                     q = s["rv"]["place"]["local"]
                     # `q = move x` earlier in the same block: the value tested is x
                     k0 = b["stmts"].index(s)
@@ -325,13 +343,14 @@ def thread_known_variants(body, only_from=None, budget=60, bools=False):
             continue
         # walk backwards over straight-line chains; state = (block index, tracked local, chain of
         # block indices from that block's successor to S, try-mapping flag)
-        stack = [(p, q0, [si]) for p in preds_of(si)]
+        path0 = nested[0]
+        stack = [(p, q0, path0, [si]) for p in preds_of(si)]
         seen = set()
         while stack and made < budget:
-            cur, q, chain = stack.pop()
-            if (cur, q, tuple(chain)) in seen or len(chain) > 24:
+            cur, q, path, chain = stack.pop()
+            if (cur, q, path, tuple(chain)) in seen or len(chain) > 24:
                 continue
-            seen.add((cur, q, tuple(chain)))
+            seen.add((cur, q, path, tuple(chain)))
             B = blocks[cur]
             t = B["term"]
             # the chain may only consist of blocks that do nothing but move values around
@@ -352,6 +371,9 @@ def thread_known_variants(body, only_from=None, budget=60, bools=False):
                 continue
             known = known_from_call
             ok = True
+            descended = len(path) < len(path0)
+            if known_from_call is not None and path:
+                continue
             for s in reversed(B["stmts"] if known is None else []):
                 if s["k"] != "assign":
                     continue
@@ -360,7 +382,19 @@ def thread_known_variants(body, only_from=None, budget=60, bools=False):
                     if rv["k"] == "use" and rv["op"]["k"] in ("copy", "move") and not rv["op"]["place"]["proj"]:
                         q = rv["op"]["place"]["local"]
                         continue
-                    if rv["k"] == "aggregate" and rv["kind"]["k"] == "adt" and rv["kind"]["variant"] in _VARIANT_IDX:
+                    if rv["k"] == "aggregate" and rv["kind"]["k"] == "adt" and path:
+                        # the value tested lies inside this aggregate: follow the payload
+                        v0, f0 = path[0]
+                        if rv["kind"]["variant"] == v0 and f0 < len(rv["ops"]) and rv["ops"][f0]["k"] in ("copy", "move") and not rv["ops"][f0]["place"]["proj"]:
+                            q = rv["ops"][f0]["place"]["local"]
+                            path = path[1:]
+                            descended = True
+                            continue
+                        ok = False
+                        break
+                    if rv["k"] == "aggregate" and rv["kind"]["k"] == "adt" and descended and isinstance(rv["kind"].get("idx"), int):
+                        known = int(rv["kind"]["idx"])
+                    elif rv["k"] == "aggregate" and rv["kind"]["k"] == "adt" and rv["kind"]["variant"] in _VARIANT_IDX:
                         known = rv["kind"]["variant"]
                     elif S["term"].get("discr_ty") == "bool" and rv["k"] == "use" and rv["op"]["k"] == "const" and rv["op"].get("bits") in ("0", "1"):
                         known = int(rv["op"]["bits"])
@@ -391,7 +425,7 @@ def thread_known_variants(body, only_from=None, budget=60, bools=False):
                 made += 1
                 continue
             for p in preds_of(cur):
-                stack.append((p, q, [cur] + chain))
+                stack.append((p, q, path, [cur] + chain))
     return made
 
 
